@@ -2,6 +2,7 @@ package main
 
 import (
 	"bytes"
+	"context"
 	"crypto/sha256"
 	"encoding/hex"
 	"encoding/json"
@@ -256,6 +257,26 @@ func (s *c08Sched) freeEverything() {
 	}
 }
 
+// c08LogHandler turns every log record the database emits into a scheduling point: while a `ckptrace` operation is
+// armed, the first record lets the flush commit that is parked at its hook land — right where the log call stands in
+// the code, e.g. between two steps of DB.Checkpoint that are meant to be one. Otherwise it discards the record.
+type c08LogHandler struct{ r *c08Run }
+
+func (h *c08LogHandler) Enabled(context.Context, slog.Level) bool { return true }
+func (h *c08LogHandler) WithAttrs([]slog.Attr) slog.Handler       { return h }
+func (h *c08LogHandler) WithGroup(string) slog.Handler            { return h }
+func (h *c08LogHandler) Handle(context.Context, slog.Record) error {
+	r := h.r
+	if !r.raceArmed.CompareAndSwap(true, false) {
+		return nil
+	}
+	r.s.release("flush")
+	if r.s.waitEvent("dkv.flush.done") != "timeout" {
+		r.raceFired = true
+	}
+	return nil
+}
+
 // ---- one trace ----
 
 type c08Cfg struct {
@@ -285,6 +306,8 @@ type c08Run struct {
 	corrupt  string
 	usedIDs  []uint64 // checkpoint ids used by the running instance
 	probes   []chan struct{} // NeedsTable calls waiting for the list mutex
+	raceArmed atomic.Bool    // the next log record of the database releases the parked flush commit
+	raceFired bool
 	freeStart bool    // the next instance starts with a scheduler that parks nothing
 	freeMode  bool    // the running instance was started that way: only reads are compared from here on
 	held     *c08Held
@@ -301,7 +324,7 @@ type c08Run struct {
 
 func (r *c08Run) opts(fs storage.FileSystem, mem int) dkv.DBOptions {
 	o := dkv.DBOptions{FileSystem: fs, MemTableSize: uint64(mem), TargetFileSize: uint64(r.cfg.target), L0TableNumCompactionTrigger: r.cfg.l0,
-		Logger: slog.New(slog.DiscardHandler)}
+		Logger: slog.New(&c08LogHandler{r: r})}
 	if r.cfg.wal > 0 {
 		o.MaxWALSize = uint64(r.cfg.wal)
 	}
@@ -738,7 +761,7 @@ func runC08Trace(c lib.Case) []string {
 			emit(c08ShowScan(db, lib.UnHex(f[1])))
 		case "bg":
 			emit(r.bg(f[1]))
-		case "ckpt":
+		case "ckpt", "ckptrace":
 			id, _ := strconv.ParseUint(f[1], 10, 64)
 			if r.listLocked() {
 				emit("blocked") // CheckpointList.Add would wait for the held save (with db.mu held)
@@ -749,12 +772,40 @@ func runC08Trace(c lib.Case) []string {
 				continue
 			}
 			r.usedIDs = append(r.usedIDs, id)
+			// `ckptrace`: a flush commit is parked at its hook; should DB.Checkpoint log anything on its way, the commit lands
+			// at that very point (log calls are the only places inside Checkpoint before its lock that can be reached)
+			n := 0
+			if f[0] == "ckptrace" && r.compactQ < 4 {
+				s.mu.Lock()
+				t := s.parked["flush"]
+				s.mu.Unlock()
+				if t != nil && t.label == "dkv.flush.commit" {
+					n = t.payload[1].(int)
+					r.raceFired = false
+					r.raceArmed.Store(true)
+				}
+			}
 			r.waits[id] = c08Wait(db.Checkpoint(id))
+			r.raceArmed.Store(false)
 			r.phase[id] = 0
 			r.lineage = append(r.lineage, id)
 			delete(r.handles, id)
 			delete(r.user, id)
 			delete(r.lost, id)
+			if r.raceFired {
+				r.raceFired = false
+				r.flushQ--
+				r.compactQ++
+				for _, ti := range db.VerifLevels().VerifLayout()[0] {
+					if _, ok := s.ids[ti.Table]; !ok {
+						s.ids[ti.Table] = s.nextID
+						r.uriID[ti.URI] = s.nextID
+						s.nextID++
+					}
+				}
+				emit(fmt.Sprintf("captured commit-first %d", n))
+				continue
+			}
 			emit("captured")
 		case "cw":
 			id, _ := strconv.ParseUint(f[1], 10, 64)
@@ -1337,7 +1388,13 @@ func (g *c08Gen) bgSome(max int) {
 func (g *c08Gen) checkpoint() {
 	id := g.next
 	g.next++
-	g.add(fmt.Sprintf("ckpt %d", id))
+	if g.r.Chance(1, 3) {
+		// bring a flush to its commit point first, then checkpoint with the commit ready to land at any log call
+		g.add("bg f")
+		g.add(fmt.Sprintf("ckptrace %d", id))
+	} else {
+		g.add(fmt.Sprintf("ckpt %d", id))
+	}
 	g.lineage = append(g.lineage, id)
 	g.phase[id] = 0
 	g.user = slices.DeleteFunc(g.user, func(x uint64) bool { return x == id })
@@ -1587,6 +1644,10 @@ func c08Fixed() []lib.Case {
 		{Header: "M C08 mem=60 target=64 l0=1 amp=1 smallest=1", Ops: []string{"put " + k + " 01", "put " + k2 + " " + c08Big(0x31, 50), "put " + k3 + " " + c08Big(0x32, 50),
 			"del " + k2, "put " + k + " 02", "put " + z + " " + c08Big(0x33, 50), "ckpt 1", "bg f", "bg f", "put " + k3 + " 09", "cw 1", "cd 1", "reopenfree 1", "scan -",
 			"get " + k, "get " + k2, "get " + k3, "get " + z, "put " + k + " 00"}, Tags: []string{"free-replay"}},
+		// a flush commit parked at its hook while Checkpoint runs: whatever Checkpoint does before taking db.mu (a log line,
+		// say) must not be a place where the commit can split the (level list, WAL) pair
+		{Header: hdr, Ops: []string{"put " + k + " 01", "put " + z + " " + big, "put " + k2 + " 02", "bg f", "ckptrace 1", "bg f", "cw 1", "cd 1", "peek 1",
+			"put " + k3 + " 03", "put " + z + " " + big, "bg f", "ckptrace 2", "cw 2", "bg f", "cd 2", "peek 2", "reopen 2 same", "scan -", "intact"}, Tags: []string{"checkpoint-vs-flush-commit"}},
 		// retention keeps the listed checkpoints and every newer one; the dropped one is gone, the kept ones restore
 		{Header: hdr, Ops: []string{"put " + k + " 01", "ckpt 1", "cw 1", "cd 1", "put " + k2 + " 02", "ckpt 2", "cw 2", "cd 2", "put " + k3 + " 03",
 			"ckpt 3", "cw 3", "cd 3", "put " + k + " 04", "ckpt 4", "retain 2", "peek 1", "peek 2", "peek 3", "cw 4", "cd 4", "peek 4", "retain 4,2",
@@ -1651,7 +1712,7 @@ func propC08() *lib.Prop {
 		Nontrivial: c08Nontrivial,
 		MObs: func(op string) bool {
 			return strings.HasPrefix(op, "bg ") || strings.HasPrefix(op, "cw ") || strings.HasPrefix(op, "cd ") ||
-				strings.HasPrefix(op, "ckpt ") || strings.HasPrefix(op, "retain ") || strings.HasPrefix(op, "hcd ") ||
+				strings.HasPrefix(op, "ckpt ") || strings.HasPrefix(op, "ckptrace ") || strings.HasPrefix(op, "retain ") || strings.HasPrefix(op, "hcd ") ||
 				strings.HasPrefix(op, "hretain ") || strings.HasPrefix(op, "hretaind ") || op == "release" || op == "probe"
 		},
 	}
